@@ -241,6 +241,8 @@ impl<Key, Value> CacheD<Key, Value>
         if self.store.is_present(&key) {
             return Ok(CommandAcknowledgement::rejected(RejectionReason::KeyAlreadyExists))
         }
+        #[cfg(feature = "verif")]
+        crate::cache::verif::point(crate::cache::verif::Site::PutAfterPresenceCheck);
         self.command_executor.send(CommandType::PutWithTTL(
             self.key_description(key, weight), value, time_to_live,
         ))
